@@ -217,6 +217,77 @@ fn helper_spelling(def_name: &str, ref_name: &str) -> String {
     }
 }
 
+/// serde names that are at the same time Rust identifiers of other shared types: a reference is rewritten exactly once
+/// (identifier -> serde name of *that* type), whatever the new spelling happens to mean as an identifier
+fn rename_chains(ctx: &Ctx) -> Report {
+    let mut rep = Report::new();
+    let src = "#[typeshare]\n#[serde(rename = \"User\")]\npub struct UserV2 { pub a: u8 }\n#[typeshare]\n#[serde(rename = \"UserLegacy\")]\npub struct User { pub b: u8 }\n#[typeshare]\n#[serde(rename = \"Right\")]\npub struct Left { pub l: u8 }\n#[typeshare]\n#[serde(rename = \"Left\")]\npub struct Right { pub r: u8 }\n#[typeshare]\npub struct Holder { pub current: UserV2, pub old: Vec<User>, pub left: Left, pub right: Option<Right>, pub both: HashMap<String, Vec<UserV2>> }\n#[typeshare]\npub type Current = UserV2;\n#[typeshare]\n#[serde(tag = \"t\", content = \"c\")]\npub enum Pick { One(UserV2), Two { inner: User, side: Left } }\n";
+    // field of Holder -> name its type has to mention (before the prefix)
+    let expect = [("current", "User"), ("old", "UserLegacy"), ("left", "Right"), ("right", "Left"), ("both", "User")];
+    let files = vec![SrcFile { path: "src_root/chain_crate/src/lib.rs".into(), source: src.into() }];
+    let scratch = ctx.scratch("chains");
+    let mut k = 0;
+    for lang in ALL_LANGS {
+        for prefix in ["", "OP", "Core"] {
+            if !prefix.is_empty() && !matches!(lang, LangId::Swift | LangId::Kotlin) {
+                continue;
+            }
+            k += 1;
+            let mut cfg = LangCfg::basic(lang);
+            cfg.prefix = prefix.into();
+            let lo = crate::sut::run_lib(&files, lang, &cfg, false, &[]);
+            rep.eval(1);
+            rep.cell(format!("rename-chain|{}|prefix={}", lang.name(), !prefix.is_empty()));
+            let Some(text) = lo.single() else {
+                rep.inconclusive("rename-chain-not-generated", json!({"language": lang.name(), "outcome": lo.describe()}));
+                continue;
+            };
+            let facts = crate::facts::parse_many(ctx, &format!("chains-py{k}"), &[(lang, text)], false);
+            if let Some(file) = facts[0].file() {
+                if let Some(h) = file.defs.iter().find(|d| d.name == format!("{prefix}Holder")) {
+                    for (fname, want) in expect {
+                        let Some(f) = h.fields.iter().find(|f| f.wire_key == fname || f.ident == fname) else { continue };
+                        let mut names = vec![];
+                        f.ty.names(&mut names);
+                        rep.count("rename_chain_references_checked", 1);
+                        let wanted = format!("{prefix}{want}");
+                        if !names.iter().any(|n| *n == wanted) {
+                            rep.violate(
+                                format!("C09|{}|rename-chain|reference-names-another-type", lang.name()),
+                                format!("{}: Holder.{fname} has to refer to `{wanted}` but is written {}", lang.name(), f.ty.show()),
+                                json!({"language": lang.name(), "prefix": prefix, "source": src, "output": text}),
+                            );
+                        }
+                    }
+                }
+            } else {
+                rep.inconclusive("rename-chain-output-not-parsed", json!({"language": lang.name()}));
+            }
+            // the binary runs the same passes once each: byte-identical to the library
+            let root = scratch.join(format!("c{k}"));
+            crate::sut::write_tree(&root, &files);
+            let out = root.join(format!("out.{}", lang.ext()));
+            let o = crate::sut::run_bin(crate::sut::BinRun { cli: &ctx.cli, args: crate::sut::cli_args(lang, &cfg, false, &out, &["src_root"]), env: vec![], cwd: &root, strace: None, wall_limit: std::time::Duration::from_secs(30) });
+            rep.count("cli_runs", 1);
+            if o.ok() {
+                let got = std::fs::read_to_string(&out).unwrap_or_default();
+                if got != text {
+                    rep.violate(
+                        format!("C09|{}|rename-chain|binary-differs-from-library", lang.name()),
+                        format!("{}: the binary spells the references of the rename-chain program differently from the library pipeline", lang.name()),
+                        json!({"language": lang.name(), "prefix": prefix, "source": src, "library_output": text, "cli_output": got}),
+                    );
+                }
+            } else {
+                rep.inconclusive("rename-chain-cli-run-failed", json!({"language": lang.name(), "stderr": o.stderr.chars().take(300).collect::<String>()}));
+            }
+            let _ = std::fs::remove_dir_all(&root);
+        }
+    }
+    let _ = std::fs::remove_dir_all(&scratch);
+    rep
+}
+
 pub fn run(ctx: &Ctx) -> (Spec, Report) {
     let n = ctx.tier.pick(5000, 60_000);
     let rep = run_rounds(
@@ -269,9 +340,11 @@ pub fn run(ctx: &Ctx) -> (Spec, Report) {
         },
         judge,
     );
+    let mut rep = rep;
+    rep.merge(rename_chains(ctx));
     let spec = Spec {
         level: "exploration",
-        rule: format!("{n} programs of 3-10 mutually referencing types (struct, generic struct, unit enum, tagged enum with newtype and struct variants, alias, newtype), references direct / through containers / as generic arguments, a random subset carrying serde(rename) on the type, a seventh of the structs / enums shared through `serialized_as` (with or without a container rename_all), prefix on or off (Swift, Kotlin), 6 languages; every type name used in a field, payload, generic argument, alias target, variant parent or variant-helper reference must equal the name of the definition carrying the same stem(s); distinct = (language, target kind, site, renamed?, prefix?, nested?)"),
+        rule: format!("{n} programs of 3-10 mutually referencing types (struct, generic struct, unit enum, tagged enum with newtype and struct variants, alias, newtype), references direct / through containers / as generic arguments, a random subset carrying serde(rename) on the type, a seventh of the structs / enums shared through `serialized_as` (with or without a container rename_all), prefix on or off (Swift, Kotlin), 6 languages; every type name used in a field, payload, generic argument, alias target, variant parent or variant-helper reference must equal the name of the definition carrying the same stem(s); plus a fixed program in which serde names and Rust identifiers overlap (`UserV2` renamed to `User` beside `User` renamed to `UserLegacy`; `Left` and `Right` renamed to each other), through the library and through the binary under 3 prefixes: each reference is spelled like the definition of the type it refers to; distinct = (language, target kind, site, renamed?, prefix?, nested?)"),
         assumptions: vec!["use and definition are paired by stems, so either spelling passes as long as both sides agree".into()],
         exhaustive: None,
     };
